@@ -34,6 +34,11 @@ def extra_worlds():
         {"all.do": [S(deps=["a", "b"])], "a.do": [S(deps=["c"])], "b.do": [S(deps=["c"], out="file")],
          "c.do": [S(kind="csum", deps=["s"], out="file"), S(deps=["s"], out="file", tag="nostamp")]},
         ["all", "a", "b", "c"], ["all"])
+    w["csum-window"] = World(   # job w evaluates b (which depends on c) while job a's chain is rebuilding the checksummed c
+        "csum-window", {"s": ["0", "1", "2"]},
+        {"all.do": [S(deps=["a", "w"])], "a.do": [S(kind="always", deps=["c"])], "w.do": [S(kind="always", deps=["b"], out="file")],
+         "b.do": [S(deps=["c"])], "c.do": [S(kind="csum", deps=["s"], proj=True, out="file")]},
+        ["all", "a", "w", "b", "c"], ["all"])
     w["chain3"] = World(
         "chain3", {"s": ["0", "1"]},
         {"t1.do": [S(deps=["m"])], "t2.do": [S(deps=["m"], out="file")], "m.do": [S(deps=["l"])], "l.do": [S(deps=["s"])]},
@@ -55,6 +60,8 @@ def scenarios(tier):
     # evaluate its dependent between the node's redo-stamp and the recording of the node
     L.append((SC.scn("csum-shared-unchanged-j2", w["csum-shared"], ["redo-ifchange top"], jobserver=2,
                      setup=[["ifchange", ["top"]], ["edit", "s", "1"]], visible=VIS), 1 if q else 2))
+    L.append((SC.scn("csum-window-unchanged-j2", w["csum-window"], ["redo-ifchange all"], jobserver=2,
+                     setup=[["ifchange", ["all"]], ["edit", "s", "1"]], visible=VIS), 1 if q else 2))
     L.append((SC.scn("oob-shared-rebuild-j2", w["oobshare"], ["redo --no-log -j2 all"],
                      setup=[["ifchange", ["all"]], ["edit", "s", "2"], ["edit", "qs", "1"]], visible=VIS), 1 if q else 2))
     L.append((SC.scn("always-shared-j2", w["always-shared"], ["redo --no-log -j2 top"], visible=VIS), 1 if q else 2))
